@@ -50,6 +50,13 @@ func (e *Engine) decLeaf(path string, s Sort, bz *T) *T {
 			return t
 		}
 	}
+	// a conditional between encodings decodes to the conditional between their fields
+	if bz.Op == "ite" {
+		a, b := e.decLeaf(path, s, bz.Args[1]), e.decLeaf(path, s, bz.Args[2])
+		if !(a.Op == "uf" && a.Name == "dec"+path) || !(b.Op == "uf" && b.Name == "dec"+path) {
+			return Ite(bz.Args[0], a, b)
+		}
+	}
 	return UF("dec"+path, s, bz)
 }
 
